@@ -480,6 +480,7 @@ func init() {
 			c.Evaluations.Add(int64(n))
 			engineClockGrid(c)
 			deepLimits(c)
+			deepFaithful(c)
 		},
 	}
 }
@@ -621,5 +622,82 @@ func deepLimits(c *harness.Check) {
 		}
 	}
 	c.SetExtra("deep_limit_cases", n)
+	c.Evaluations.Add(int64(n))
+}
+
+// deepFaithful: the analysis of small but non-trivial roots to depth 7-9, running free and without a
+// table: every iteration the consumer receives carries the score AND the variation of a direct
+// fixed-depth search of that depth, the analysis ends at the first depth with a forced mate within
+// the depth (else at the limit), and Halt returns that last iteration. The explorer's scenarios stop
+// at depth 3; whatever a driver does differently from some depth on (windows taken from the
+// previous iteration, move ordering carried over, ...) shows here.
+func deepFaithful(c *harness.Check) {
+	roots := []struct {
+		fen   string
+		limit uint
+	}{
+		{"7K/8/8/8/3k4/8/P6p/8 w - - 0 1", 7},      // the score drops at depth 6 (a promotion comes into view)
+		{"7k/8/8/8/8/8/R7/1R4K1 b - - 0 1", 9},     // the side to move is mated in 6: seen at depth 7, where the analysis must end
+		{"8/8/8/4k3/8/8/4P3/4K3 w - - 0 1", 8},     // K+P v K
+		{"8/8/1k6/8/8/2K5/1Q6/8 w - - 0 1", 6},     // K+Q v K: a mate comes into view
+		{"k7/p7/P7/8/8/7p/7P/7K w - - 0 1", 9},     // fortress
+		{"4k3/8/8/3q4/4P3/8/3R4/4K3 b - - 0 1", 5}, // tactical
+	}
+	n := 0
+	for _, r := range roots {
+		what := fmt.Sprintf("root %q depth limit %d", r.fen, r.limit)
+		done := make(chan string, 1)
+		go func() {
+			ctx := context.Background()
+			b, err := fen.NewBoard(r.fen)
+			if err != nil {
+				done <- err.Error()
+				return
+			}
+			l := &searchctl.Iterative{Root: iterRoot()}
+			h, out := l.Launch(ctx, b, search.NoTranspositionTable{}, eval.Random{}, searchctl.Options{DepthLimit: lang.Some(r.limit)})
+			last := search.PV{}
+			for pv := range out {
+				if pv.Depth <= last.Depth {
+					done <- fmt.Sprintf("reported depth %d after depth %d", pv.Depth, last.Depth)
+					return
+				}
+				score, moves := direct(r.fen, pv.Depth)
+				if pv.Score != score || !sameMoves(pv.Moves, moves) {
+					done <- fmt.Sprintf("reports %s at depth %d; a direct depth-%d search returns %v %v", pvText(pv), pv.Depth, pv.Depth, score, moves)
+					return
+				}
+				last = pv
+			}
+			stop := int(r.limit)
+			for d := 1; d <= int(r.limit); d++ {
+				if score, _ := direct(r.fen, d); func() bool { md, ok := score.MateDistance(); return ok && int(md) <= d }() {
+					stop = d
+					break
+				}
+			}
+			if last.Depth != stop {
+				done <- fmt.Sprintf("the analysis ended by itself at depth %d; it must end exactly at depth %d (depth limit or forced mate within the depth)", last.Depth, stop)
+				return
+			}
+			if pv := h.Halt(); pv.Depth != last.Depth || pv.Score != last.Score || !sameMoves(pv.Moves, last.Moves) {
+				done <- fmt.Sprintf("Halt returned %s after the analysis had ended with %s", pvText(pv), pvText(last))
+				return
+			}
+			done <- ""
+		}()
+		n++
+		select {
+		case msg := <-done:
+			if msg != "" {
+				c.Violation(fmt.Sprintf("C15/deep-faithful %s", r.fen), what+": "+msg, "note", nil)
+			}
+		case <-time.After(5 * time.Minute):
+			c.Violation(fmt.Sprintf("C15/deep-faithful-hang %s", r.fen), what+": the analysis did not end within five minutes", "note", nil)
+			c.SetExtra("deep_faithful_roots", n)
+			return
+		}
+	}
+	c.SetExtra("deep_faithful_roots", n)
 	c.Evaluations.Add(int64(n))
 }
